@@ -390,3 +390,30 @@ func (fs *Facts) prove(op string, x, y ssa.Value, ctx FactSet, depth int) bool {
 func (fs *Facts) ProveOnEdge(op string, x, y ssa.Value, pred, succ *ssa.BasicBlock) bool {
 	return fs.prove(op, x, y, fs.edgeFacts(pred, succ), 0)
 }
+
+// EdgesWithFact returns the CFG edges of fn on which a fact satisfying pred is established by the
+// branch condition of their source block.
+func EdgesWithFact(fn *ssa.Function, pred func(Fact) bool) []Edge {
+	var out []Edge
+	for _, b := range fn.Blocks {
+		if len(b.Instrs) == 0 {
+			continue
+		}
+		ifi, ok := b.Instrs[len(b.Instrs)-1].(*ssa.If)
+		if !ok || b.Succs[0] == b.Succs[1] {
+			continue
+		}
+		for si, val := range []bool{true, false} {
+			for _, f := range condFacts(ifi.Cond, val) {
+				if pred(f) {
+					out = append(out, Edge{b, si})
+				}
+			}
+		}
+	}
+	return out
+}
+
+// OnlyEdges builds an edge filter that, for every block that is the source of one of the given
+// edges, allows only the OTHER out-edges (i.e. forbids taking the listed edges).
+func OnlyOtherEdges(edges []Edge) EdgeFilter { return ForbidEdges(edges) }
